@@ -12,7 +12,7 @@ use std::hash::Hash;
 
 /// What the run needs from a key / value type.
 pub trait MKey: Eq + Hash + Clone + lru_mem::MemSize + std::fmt::Debug { fn mk(id: u32) -> Self; fn id(&self) -> u32; }
-pub trait MVal: Clone + lru_mem::MemSize + std::fmt::Debug { fn mk(stamp: u64, heap: usize) -> Self; fn stamp(&self) -> u64; fn heap(&self) -> usize; fn set(&mut self, stamp: u64, heap: usize); }
+pub trait MVal: Clone + PartialEq + lru_mem::MemSize + std::fmt::Debug { fn mk(stamp: u64, heap: usize) -> Self; fn stamp(&self) -> u64; fn heap(&self) -> usize; fn set(&mut self, stamp: u64, heap: usize); }
 
 impl MKey for u32 { fn mk(id: u32) -> u32 { id } fn id(&self) -> u32 { *self } }
 
@@ -36,20 +36,20 @@ impl HeapSize for DSpan { fn heap_size(&self) -> usize { self.len } }
 impl MVal for DSpan { fn mk(stamp: u64, heap: usize) -> DSpan { DSpan { stamp, len: heap } } fn stamp(&self) -> u64 { self.stamp } fn heap(&self) -> usize { self.len } fn set(&mut self, s: u64, h: usize) { self.stamp = s; self.len = h; } }
 
 /// `ManuallyDrop` around an owning value: no drop glue although it owns memory (leaked on purpose, tiny).
-#[derive(Debug)]
+#[derive(Debug, PartialEq)]
 pub struct MSpan { pub stamp: u64, pub len: usize, pub keep: std::mem::ManuallyDrop<Option<Box<u8>>> }
 impl Clone for MSpan { fn clone(&self) -> MSpan { MSpan { stamp: self.stamp, len: self.len, keep: std::mem::ManuallyDrop::new(None) } } }
 impl HeapSize for MSpan { fn heap_size(&self) -> usize { self.len } }
 impl MVal for MSpan { fn mk(stamp: u64, heap: usize) -> MSpan { MSpan { stamp, len: heap, keep: std::mem::ManuallyDrop::new(None) } } fn stamp(&self) -> u64 { self.stamp } fn heap(&self) -> usize { self.len } fn set(&mut self, s: u64, h: usize) { self.stamp = s; self.len = h; } }
 
 /// A value with a large inline part (buckets of more than 4 KiB).
-#[derive(Clone, Debug)]
+#[derive(Clone, Debug, PartialEq)]
 pub struct BigVal { pub stamp: u64, pub len: usize, pub pad: [u8; 4096] }
 impl HeapSize for BigVal { fn heap_size(&self) -> usize { self.len } }
 impl MVal for BigVal { fn mk(stamp: u64, heap: usize) -> BigVal { BigVal { stamp, len: heap, pad: [stamp as u8; 4096] } } fn stamp(&self) -> u64 { debug_assert!(self.pad[17] == self.pad[4095]); self.stamp } fn heap(&self) -> usize { self.len } fn set(&mut self, s: u64, h: usize) { self.stamp = s; self.len = h; self.pad = [s as u8; 4096]; } }
 
 /// An over-aligned value (the bucket type inherits the alignment).
-#[derive(Clone, Debug)]
+#[derive(Clone, Debug, PartialEq)]
 #[repr(align(64))]
 pub struct Aligned64 { pub stamp: u64, pub len: usize }
 impl HeapSize for Aligned64 { fn heap_size(&self) -> usize { self.len } }
@@ -90,6 +90,7 @@ pub fn run_one<K: MKey, V: MVal>(label: &'static str, rng: &mut Rng, out: &mut R
     let mut m = Model { ents: Vec::new(), max: max0 };
     let mut log: Vec<String> = vec![format!("[{}] {}", label, cfg.to_text())];
     let mut stamp = 0u64;
+    let mut last_err: Option<TryInsertError<K, V>> = None;
     let size_of = |id: u32, heap: usize| entry_size(&K::mk(id), &V::mk(0, heap));
     for _ in 0..rng.range(10, 120) {
         out.stats.events += 1;
@@ -125,6 +126,17 @@ pub fn run_one<K: MKey, V: MVal>(label: &'static str, rng: &mut Rng, out: &mut R
                 let r = c.try_insert(K::mk(id), V::mk(stamp, heap));
                 let want = if es > m.max { 1 } else if es as u128 > m.max as u128 - cur { 2 } else if m.pos(id).is_some() { 3 } else { 0 };
                 let got = match &r { Ok(()) => 0, Err(TryInsertError::EntryTooLarge { .. }) => 1, Err(TryInsertError::WouldEjectLru { .. }) => 2, Err(TryInsertError::OccupiedEntry { .. }) => 3 };
+                // the error value and its copies: the pair handed back, the figures, Clone / clone_from / PartialEq
+                if let Err(e) = &r {
+                    out.stats.count("c10_error_values_inspected");
+                    let (ek, ev) = e.entry();
+                    let figures_ok = match e { TryInsertError::EntryTooLarge { entry_size, max_size, .. } => *entry_size == es && *max_size == m.max, TryInsertError::WouldEjectLru { entry_size, free_memory, .. } => *entry_size == es && *free_memory as u128 == m.max as u128 - cur, TryInsertError::OccupiedEntry { .. } => true };
+                    if ek.id() != id || ev.stamp() != stamp || ev.heap() != heap || e.key().id() != id || e.value().stamp() != stamp || !figures_ok { bad = Some(format!("the error value {:?} does not carry the pair passed in with accurate figures (entry_size {}, limit {}, free {})", e, es, m.max, m.max as u128 - cur)); }
+                    let copy = e.clone();
+                    if copy != *e { bad = Some(format!("a clone of the error value differs from it: {:?} vs {:?}", copy, e)); }
+                    if let Some(prev) = last_err.take() { let mut slot: TryInsertError<K, V> = prev; slot.clone_from(e); if slot != *e { bad = Some(format!("clone_from of the error value gives {:?}, the source is {:?}", slot, e)); } }
+                    last_err = Some(copy);
+                }
                 if got != want { bad = Some(format!("outcome class {} (0 ok, 1 too large, 2 would eject, 3 occupied), expected {}", got, want)); }
                 if want == 0 { m.ents.push(MEnt { id, stamp, heap, size: es }); }
                 format!("try_insert {} heap {}", id, heap)
@@ -175,6 +187,42 @@ pub fn run_one<K: MKey, V: MVal>(label: &'static str, rng: &mut Rng, out: &mut R
     out.stats.histories += 1;
 }
 
+/// Zero-sized key types: there is exactly one key. The model is an Option.
+pub fn run_zst_key<K: Eq + Hash + Clone + Default + lru_mem::MemSize + std::fmt::Debug>(label: &'static str, rng: &mut Rng, out: &mut RunOut) {
+    let hk = TH_KINDS[rng.usize_below(TH_KINDS.len())];
+    let use_default_hasher = rng.chance(1, 3);
+    let cfg = HistCfg { hk: if use_default_hasher { 4 } else { hk }, cap0: None, max: 10_000, universe: 1, events: 0, extreme: false };
+    let log = vec![format!("[{}] {}", label, cfg.to_text())];
+    macro_rules! body { ($c:expr) => {{
+        let mut c = $c;
+        let mut model: Option<u64> = None;
+        for step in 0..rng.range(5, 60) as u64 {
+            out.stats.events += 1;
+            out.stats.countf(format_args!("model_ops_{}", label));
+            let kind = rng.below(10);
+            out.stats.eval("C04", mix(&[4343, kind, model.is_some() as u64, label.len() as u64]));
+            let k = K::default();
+            let mut bad: Option<String> = None;
+            let name = match kind {
+                0 | 1 => { let r = c.insert(k.clone(), step).ok().flatten(); if r != model { bad = Some(format!("insert returned {:?}, model {:?}", r, model)); } model = Some(step); "insert" }
+                2 => { if c.contains(&k) != model.is_some() { bad = Some("contains disagrees with the model".into()); } "contains" }
+                3 => { if c.peek(&k).copied() != model { bad = Some(format!("peek returned {:?}, model {:?}", c.peek(&k), model)); } "peek" }
+                4 => { if c.get(&k).copied() != model { bad = Some(format!("get disagrees with the model {:?}", model)); } "get" }
+                5 => { let r = c.remove(&k); if r != model { bad = Some(format!("remove returned {:?}, model {:?}", r, model)); } model = None; "remove" }
+                6 => { let r = c.mutate(&k, |v| { *v += 1; *v }).ok().flatten(); let w = model.map(|v| v + 1); if r != w { bad = Some(format!("mutate returned {:?}, model {:?}", r, w)); } model = w; "mutate" }
+                7 => { match rng.below(3) { 0 => c.reserve(rng.usize_below(20)), 1 => c.shrink_to_fit(), _ => { let _ = c.try_reserve(3); } } "capacity operation" }
+                8 => { let r = c.try_insert(k.clone(), step).is_ok(); if r != model.is_none() { bad = Some(format!("try_insert ok = {}, model holds {:?}", r, model)); } if model.is_none() { model = Some(step); } "try_insert" }
+                _ => { let d = c.clone(); if d.peek(&k).copied() != model || d.len() != model.is_some() as usize { bad = Some("a clone disagrees with the model".into()); } if rng.chance(1, 2) { c = d; } "clone" }
+            };
+            let listed: Vec<u64> = c.iter().map(|(_, v)| *v).collect();
+            if bad.is_none() && (listed != model.into_iter().collect::<Vec<_>>() || c.len() != model.is_some() as usize || c.peek(&k).copied() != model) { bad = Some(format!("after {}: traversal lists {:?}, len() = {}, peek = {:?}; the model holds {:?}", name, listed, c.len(), c.peek(&k), model)); }
+            if let Some(b) = bad { fail(out, "C04", "zst-key", format!("[{}] {}: {}", label, name, b), &cfg, &log); fail(out, "C07", "zst-key", format!("[{}] {}: {}", label, name, b), &cfg, &log); return; }
+        }
+    }}; }
+    if use_default_hasher { body!(LruCache::<K, u64>::new(cfg.max)); } else { body!(LruCache::<K, u64, TH>::with_hasher(cfg.max, TH(hk, next_hasher_seed()))); }
+    out.stats.histories += 1;
+}
+
 pub fn run_model(seed: u64, budget: u64, out: &mut RunOut) {
     let mut rng = Rng::new(seed ^ 0x30de1);
     while out.stats.events < budget {
@@ -186,6 +234,9 @@ pub fn run_model(seed: u64, budget: u64, out: &mut RunOut) {
         run_one::<u32, BigVal>("K=u32,V=4KiB-inline", &mut rng, out);
         run_one::<Box<str>, Aligned64>("K=Box<str>,V=align64", &mut rng, out);
         run_one::<(u8, u32), DSpan>("K=(u8,u32),V=span-with-Drop", &mut rng, out);
+        run_zst_key::<()>("K=()", &mut rng, out);
+        run_zst_key::<[u8; 0]>("K=[u8;0]", &mut rng, out);
+        run_zst_key::<std::marker::PhantomData<u32>>("K=PhantomData", &mut rng, out);
     }
 }
 
